@@ -160,6 +160,13 @@ func genC08(t *rapid.T) C08Case {
 			s = s[:1] + rapid.SampledFrom([]string{"a", "E", "*", "é", " ", "A"}).Draw(t, "bad") + s[1:]
 		case 6:
 			s = rapid.SampledFrom([]string{"", "!", "A", "AB!", "!AB", "12", "a1b"}).Draw(t, "junk")
+		case 8: // alias rune of a Codabar character / digit of another script in the body
+			r := aliasRune(codabarAlphabet[rapid.IntRange(0, 19).Draw(t, "ac")], rapid.IntRange(0, 199).Draw(t, "ak"))
+			if rapid.Bool().Draw(t, "nd") {
+				r = rapid.SampledFrom(nonASCIIDigits).Draw(t, "ndr")
+			}
+			p := rapid.IntRange(0, len(s)).Draw(t, "ap")
+			s = s[:p] + string(r) + s[p:]
 		case 7: // near-miss start/stop letters (other Codabar dialects use E, T, N, *; lower case)
 			x := rapid.SampledFrom([]string{"E", "T", "N", "*", "a", "b", "c", "d", "e", "F", "0", "-"}).Draw(t, "nearmiss")
 			if rapid.Bool().Draw(t, "atstart") {
@@ -192,6 +199,13 @@ func genC08(t *rapid.T) C08Case {
 			s = "-" + s
 		case 4:
 			s = s[:len(s)/2] + rapid.SampledFrom([]string{" ", "x", "é", "\x00"}).Draw(t, "mid") + s[len(s)/2:]
+		case 5, 6: // alias rune of a digit / digit of another script, keeping or breaking the byte-length parity
+			r := aliasRune(byte('0'+rapid.IntRange(0, 9).Draw(t, "ad")), rapid.IntRange(0, 199).Draw(t, "ak"))
+			if rapid.Bool().Draw(t, "nd") {
+				r = rapid.SampledFrom(nonASCIIDigits).Draw(t, "ndr")
+			}
+			p := rapid.IntRange(0, len(s)).Draw(t, "ap")
+			s = s[:p] + string(r) + s[p:]
 		}
 	}
 	return C08Case{Kind: kind, Content: BStr(s)}
